@@ -162,7 +162,7 @@ pub fn build_program(dag: &Dag, rng: &mut Rng) -> Result<Arc<RedeemNode>, String
 pub fn run(ctx: &Ctx) {
     let t = ctx.tier;
     let jets = gen::jets_of(Family::Elements);
-    let reps: u64 = t.pick(6, 60);
+    let reps: u64 = t.pick(30, 120);
     // every Elements jet, several plausible inputs and environments
     ctx.run_sub("every-jet-wrapped", Plan::enumerate(jets.len() as u64 * reps, 0.45), |rng, case| {
         let ji = &jets[(case.idx % jets.len() as u64) as usize];
@@ -199,7 +199,7 @@ pub fn run(ctx: &Ctx) {
             Err((sig, d)) => violated(format!("{}:{}", sig, name), d),
         }
     });
-    ctx.run_sub("generated-programs", Plan::sample(t.pick(15_000, 800_000), 0.45), |rng, case| {
+    ctx.run_sub("generated-programs", Plan::sample(t.pick(90_000, 800_000), 0.45), |rng, case| {
         let fuel = rng.urange(3, 18);
         let (dag, _) = match c01::make_program(rng, Family::Elements, fuel, false) {
             Ok(x) => x,
